@@ -12,12 +12,13 @@ random walks; a violation is attributed to the first operation after which the i
 fails."""
 
 import copy
+import itertools
 import random
 import warnings
 
 import numpy as np
 
-from .. import bases, bootstrap, contracts, fingerprint as fpr
+from .. import bases, bootstrap, contracts, fingerprint as fpr, geom
 from .c16 import deep_state, state_diff_keys, SCRATCH
 
 PROPERTY = "C03"
@@ -122,6 +123,13 @@ def plan(tier):
                 if bi < len(d2):
                     for ai in range(len(red)):
                         out.append(("depth2", cname, bi, ai))
+        # solids that already sit in their principal axes (diagonal tensor about the origin), chiral, with the three principal
+        # moments in each of the six possible orders along x, y, z, at the origin and pushed out along one axis: reorienting
+        # them is a pure relabelling of axes, which is a proper rotation only for half of the orders
+        for cname in ("ConvexPolyhedron", "Polyhedron"):
+            for pi in range(6):
+                for shift in (None, 0, 1, 2):
+                    out.append(("aligned", cname, (pi, shift), None))
         nw = 48 if tier == "quick" else 1200
         for w in range(nw):
             out.append(("walk", CLASSES[w % len(CLASSES)], w, None))
@@ -138,6 +146,21 @@ def plan(tier):
 
 def ncases(tier):
     return len(plan(tier))
+
+
+def aligned_solid(cs, cname, pi, shift):
+    """Rhombic disphenoid (a,b,c),(a,-b,-c),(-a,b,-c),(-a,-b,c): chiral, D2-symmetric, so its inertia tensor about the origin is
+    diagonal in the coordinate frame; (a,b,c) runs over the six orders of (1,2,3); optionally pushed out along one axis."""
+    a, b, c = list(itertools.permutations((1.0, 2.0, 3.0)))[pi]
+    P = np.array([[a, b, c], [a, -b, -c], [-a, b, -c], [-a, -b, c]]) * 0.7
+    if shift is not None:
+        t = np.zeros(3)
+        t[shift] = 9.5
+        P = P + t
+    if cname == "ConvexPolyhedron":
+        return cs.ConvexPolyhedron(P)
+    h = geom.hull_facets(P)
+    return cs.Polyhedron(P, [list(f) for f in h.facets], faces_are_convex=True)
 
 
 # ---------------------------------------------------------------------------
@@ -340,6 +363,14 @@ def run_case(i, rng, rec, tier, state):
     cls = getattr(cs, cname)
     rec.cls(kind)
     rec.cls(cname)
+    if kind == "aligned":
+        pi, shift = bi
+        blabel = f"disphenoid-principal-axes-order{pi}" + ("" if shift is None else f"-pushed-along-{'xyz'[shift]}")
+        M = Monitor(rec, cname, blabel, aligned_solid(cs, cname, pi, shift))
+        if M.step(("call", "diagonalize_inertia", None)):
+            M.step(("call", "diagonalize_inertia", None))
+        rec.nontriv(cname, blabel, "diagonalize_inertia x2")
+        return
     if kind == "depth1":
         blabel, ctor = state["BL"][cname][bi]
         for op in alphabet(cs, cls):
